@@ -136,9 +136,9 @@ def run(ctx, prop):
     res = tlc.run("BitVecMC", "BitVecMC.cfg", tag="bvmc")
     ctx.add_tlc(res, "M:BitVecMC.cfg")
     if quick:
-        tr = generate(ctx, "ExprGenEx1.cfg", "ex1", stride=8, thresholds=(0,))
-        tr += generate(ctx, "ExprGenSim_small.cfg", "simsmall", simulate="num=24", depth=9, thresholds=(0, 4))
-        tr += generate(ctx, "ExprGenMap.cfg", "map", stride=2, thresholds=(0,))
+        tr = generate(ctx, "ExprGenEx1.cfg", "ex1", stride=12, thresholds=(0,))
+        tr += generate(ctx, "ExprGenSim_small.cfg", "simsmall", simulate="num=20", depth=9, thresholds=(0, 4))
+        tr += generate(ctx, "ExprGenMap.cfg", "map", stride=3, thresholds=(0,))
         validate(ctx, tr, prop, "small")
         tb = generate(ctx, "ExprGenSim_big.cfg", "simbig", simulate="num=8", depth=8, thresholds=(0, 6))
         validate(ctx, tb, prop, "big")
